@@ -280,13 +280,13 @@ class CasJsonDeserializer:
         attributes["xmiID"] = fs_id
 
         if typesystem.is_primitive_array(AnnotationType.name):
-            attributes["elements"] = self._parse_primitive_array(AnnotationType.name, json_fs.get(ELEMENTS_FIELD))
+            attributes["elements"] = self._parse_primitive_array(AnnotationType.name, json_fs.get(ELEMENTS_FIELD) or [])
         elif AnnotationType.name == TYPE_NAME_FS_ARRAY:
             # Resolve id-ref at the end of processing
             def fix_up(elements):
                 return lambda: setattr(fs, "elements", [feature_structures.get(e) for e in elements])
 
-            self._post_processors.append(fix_up(json_fs.get(ELEMENTS_FIELD)))
+            self._post_processors.append(fix_up(json_fs.get(ELEMENTS_FIELD) or []))
 
         self._strip_reserved_json_keys(attributes)
 
